@@ -131,6 +131,7 @@ type HistOpts struct {
 	Whitelist bool        // users[0] may decommission
 	MaxExp    int         // amount magnitude
 	BlockEach int         // a block boundary every n messages (0 = 3)
+	LockChanges bool      // the admin changes lock / cancel periods in the middle of histories
 }
 
 type History struct {
@@ -220,6 +221,12 @@ func RunClpHistories(c Ctx, rep *report.Report, rng *chain.Rng, o HistOpts, next
 			desc["reward_alloc"] = au.String()
 		}
 		for st := 0; st < o.Steps; st++ {
+			if o.LockChanges && rng.Intn(8) == 0 {
+				lock := []uint64{0, 1, 2, 5, 50}[rng.Intn(5)]
+				cancel := []uint64{0, 1, 2, 5, 50}[rng.Intn(5)]
+				mustOK(e.UpdateRewardsParams(lock, cancel, 0, "", false), "rewards params")
+				rep.Count("admin.lock-change")
+			}
 			m, sm, signer := genClpMsg(rng, e, toks, o)
 			pre := e.Snapshot()
 			fee := chain.E(18)
